@@ -109,7 +109,7 @@ def process(
                             cprint(f"KILLING {process}", "light_red")
                             process.kill()
                     else:
-                        print("KILLING (not performing)", process)
+                        print("KILLING (not performing)", info.getprocess())
                 print(
                     colored(f"{info.state.name:8}{job_str}", "yellow"),
                     end="",
